@@ -292,6 +292,27 @@ UNITS.append(Unit('rdr.read_block', ('CdnsReader::read_block', None), contract=R
                   note='every exception raised by the decoder while looking for the next block or reading it propagates: a truncated file is never reported as a clean end; '
                        'a block is returned (counter + 1) only after CdnsBlockRead::read returned normally'))
 
+RFH_C = '''
+__CPROVER_requires(__CPROVER_w_ok($this, sizeof(*$this)) && g_exc == 0 && H.step == 0 && !H.seq_bad && !H.raised)
+__CPROVER_assigns(__CPROVER_object_whole($this), H, g_lit, g_exc)
+__CPROVER_ensures(g_exc == 0 || g_exc == EXC_CdnsDecoderException || g_exc == EXC_CdnsDecoderEnd)
+__CPROVER_ensures(!H.seq_bad)
+__CPROVER_ensures(H.raised ==> g_exc != 0)
+__CPROVER_ensures(g_exc == 0 ==> (H.step == 4 && (H.outer_indef || H.outer_len == 3)))
+__CPROVER_ensures(g_exc == 0 ==> (__CPROVER_uninterpreted_upper(H.id) == g_lit.id && H.idlen == g_lit.len))
+__CPROVER_ensures(g_exc == 0 ==> ($this->m_blocks_count == H.blocks_len && ($this->m_indef_blocks != 0) == (H.blocks_indef != 0)))
+__CPROVER_ensures((g_exc == EXC_CdnsDecoderException && !H.raised) ==> ((H.step == 1 && !H.outer_indef && H.outer_len != 3) || (H.step == 2 && !(__CPROVER_uninterpreted_upper(H.id) == g_lit.id && H.idlen == g_lit.len))))
+'''
+UNITS.append(Unit('rdr.read_file_header', ('CdnsReader::read_file_header', None), contract=RFH_C, prelude='hdr.h', extern_records=EXT,
+                  stubs=['CdnsDecoder__read_array_start', 'CdnsDecoder__read_textstring', 'cstring__[a-z]+'],
+                  gen_stubs=[(r'^FilePreamble__read$', '  HTHROW()\n  { __typeof__(*$P0) fresh; *$P0 = fresh; }\n  if (H.step == 2) H.step = 3; else H.seq_bad = 1;')],
+                  extra_c='struct seq_u8 g_OpCodesDefault; struct seq_u16 g_RrTypesDefault;\n',
+                  setup='  static struct CdnsReader obj;\n  H.step = 0; H.seq_bad = 0; H.raised = 0;\n', args=['&obj'], props=['C05', 'C08', 'C03'], timeout=300,
+                  post='  if (g_exc != 0) { CANARY("decoder exception reachable"); }',
+                  note='file header: outer array (definite of 3 or indefinite), file type ID compared case-insensitively with the literal, preamble, start of the block array '
+                       '(count and form stored); every decoder error propagates; a format error of its own is raised only for a wrong outer length or ID. '
+                       'The characters of the literal "C-DNS" are not inspected'))
+
 TRUSTED_BASE = [
     'A13(ii) byte-layer contracts of CdnsDecoder (dec.* units) reduced to a token stream: each read call delivers one value of the kind asked for or raises',
     'A4 optional, A5 string (length, content identity), A6 vector as abstract sequence with one watched element',
